@@ -4,6 +4,7 @@
   Model: `Red.tokenAtOffset`, `Red.coveringElement` (`Model/Query`).
 -/
 import CstModel.Proofs.Walk
+import CstModel.Proofs.ChunksTree
 namespace Cst.C13
 
 open Red
@@ -650,6 +651,75 @@ theorem range_of {r : Red} {p : Path} {t : Green} {s : Nat} (hg : r.green p = so
     r.range p = some (s, s + t.len) := by
   simp [Red.range, hg, hs]
 
+/-! #### the tokens of the sub-tree that the offset touches -/
+
+/-- a leaf (token with its span) that is non-empty and whose closed range contains the offset -/
+def hitLeaf (off : Nat) (x : Path × Nat × Green) : Bool :=
+  x.2.2.len != 0 && decide (x.2.1 ≤ off) && decide (off ≤ x.2.1 + x.2.2.len)
+
+def resPaths : TAO → List Path
+  | .single q => [q]
+  | .between l q => [l, q]
+  | _ => []
+
+theorem chain_bounds {o e : Nat} {L : List (Path × Nat × Green)} (h : Chain o L e) :
+    o ≤ e ∧ ∀ x ∈ L, o ≤ x.2.1 ∧ x.2.1 + x.2.2.len ≤ e := by
+  induction L generalizing o with
+  | nil => simp only [Chain] at h; subst h; exact ⟨Nat.le_refl _, by simp⟩
+  | cons y ys ih =>
+    obtain ⟨h1, h2⟩ := h
+    obtain ⟨i1, i2⟩ := ih h2
+    refine ⟨by omega, ?_⟩
+    intro x hx
+    simp only [List.mem_cons] at hx
+    rcases hx with rfl | hx
+    · exact ⟨by omega, by omega⟩
+    · have := i2 x hx; exact ⟨by omega, this.2⟩
+
+/-- a sub-tree that is empty or whose range does not contain the offset has no such leaf -/
+theorem leaves_nohit (off : Nat) (q : Path) (o : Nat) (c : Green) (hl : LenOk c)
+    (h : ¬ (c.len ≠ 0 ∧ o ≤ off ∧ off ≤ o + c.len)) : (leaves q o c).filter (hitLeaf off) = [] := by
+  rw [List.filter_eq_nil_iff]
+  intro x hx
+  obtain ⟨_, hb⟩ := chain_bounds (leaves_chain c q o hl)
+  have := hb x hx
+  simp only [hitLeaf, Bool.and_eq_true, bne_iff_ne, ne_eq, decide_eq_true_eq, not_and, Nat.not_le]
+  intro ⟨h1, h2⟩
+  by_cases hc : c.len = 0
+  · omega
+  · have h' := (not_and.mp h) hc
+    omega
+
+theorem filter_leavesL (off : Nat) (p : Path) : ∀ (cs : List Green) (i o : Nat), LenOkL cs →
+    (leavesL p i o cs).filter (hitLeaf off) =
+      (hitsG off o i cs).flatMap (fun x => (leaves (p ++ [x.1]) x.2.1 x.2.2).filter (hitLeaf off)) := by
+  intro cs
+  induction cs with
+  | nil => intro i o _; simp [leavesL, hitsG]
+  | cons c cs ih =>
+    intro i o hl
+    simp only [LenOkL] at hl
+    simp only [leavesL, List.filter_append, hitsG, List.flatMap_append]
+    rw [ih (i + 1) (o + c.len) hl.2]
+    congr 1
+    by_cases hc : (c.len != 0 && decide (o ≤ off) && decide (off ≤ o + c.len)) = true
+    · simp [hc]
+    · simp only [hc, Bool.false_eq_true, ↓reduceIte, List.flatMap_nil]
+      apply leaves_nohit off _ o c hl.1
+      simpa [Bool.and_eq_true] using hc
+
+theorem leaves_tok_hit (off : Nat) (q : Path) (i o : Nat) (c : Green) (hc : c.isNode = false) (hh : Hit off (i, o, c)) :
+    ((leaves q o c).filter (hitLeaf off)).map (·.1) = [q] := by
+  cases c with
+  | node _ _ _ _ _ => simp [Green.isNode] at hc
+  | tok id k key l =>
+    obtain ⟨h1, h2, h3⟩ := hh
+    simp only at h1 h2 h3
+    have : hitLeaf off (q, o, Green.tok id k key l) = true := by
+      simp only [hitLeaf, Bool.and_eq_true, bne_iff_ne, ne_eq, decide_eq_true_eq]
+      exact ⟨⟨h1, h2⟩, h3⟩
+    simp [leaves, this]
+
 /-- **`token_at_offset`** on a canonical red tree, for an offset inside the element's range: never
     panics; a token answers itself; an empty node answers `None`; a non-empty node answers with one
     non-empty token whose closed range contains the offset, or — only when the offset is strictly
@@ -661,7 +731,9 @@ theorem tao_go (n : Nat) : ∀ (r : Red) (p : Path) (t : Green) (s off : Nat), R
     (t.isNode = false → (tokenAtOffsetGo n r p off).1 = .single p) ∧
     (t.isNode = true → t.len = 0 → (tokenAtOffsetGo n r p off).1 = .none) ∧
     (t.isNode = true → 0 < t.len →
-      TaoOk (tokenAtOffsetGo n r p off).2 s (s + t.len) off (tokenAtOffsetGo n r p off).1) := by
+      TaoOk (tokenAtOffsetGo n r p off).2 s (s + t.len) off (tokenAtOffsetGo n r p off).1) ∧
+    (t.isNode = true → 0 < t.len →
+      ((leaves p s t).filter (hitLeaf off)).map (·.1) = resPaths (tokenAtOffsetGo n r p off).1) := by
   induction n with
   | zero => intro r p t s off _ _ _ hsz; cases t <;> simp [gsize] at hsz
   | succ n ih =>
@@ -677,7 +749,7 @@ theorem tao_go (n : Nat) : ∀ (r : Red) (p : Path) (t : Green) (s off : Nat), R
         have hres : tokenAtOffsetGo (n + 1) r p off = (.none, r) := by
           simp [tokenAtOffsetGo, hrange, hin, htok, hnode, heq]
         rw [hres]
-        exact ⟨hr, rfl, fun _ _ h => h, by simp [hnode], fun _ _ => rfl, fun _ h => by omega⟩
+        exact ⟨hr, rfl, fun _ _ h => h, by simp [hnode], fun _ _ => rfl, fun _ h => by omega, fun _ h => by omega⟩
       · -- non-empty: look at the children
         have hsum : t.len = sumLen t.children := LenOk_len (by
           have := hr.lens; unfold Red.green at hg; exact LenOk_get this hg) hnode
@@ -699,6 +771,13 @@ theorem tao_go (n : Nat) : ∀ (r : Red) (p : Path) (t : Green) (s off : Nat), R
           have hle := offsetIn_add_le t.children k x.2.2 hk1
           rw [hk2', hk3]
           exact ⟨e2, e1, by omega, hk4, by omega, by omega⟩
+        have hlenok : LenOk t := by have := hr.lens; unfold Red.green at hg; exact LenOk_get this hg
+        have hleavesEq : (leaves p s t).filter (hitLeaf off) =
+            (hitsG off s 0 t.children).flatMap (fun x => (leaves (p ++ [x.1]) x.2.1 x.2.2).filter (hitLeaf off)) := by
+          have := filter_leavesL off p t.children 0 s (LenOk_children hlenok)
+          cases t with
+          | tok _ _ _ _ => simp [Green.isNode] at hnode
+          | node _ _ _ _ cs => simpa [leaves, Green.children] using this
         rcases hitsG_shape off s 0 t.children h1 (by omega) (by omega) with ⟨x, hx⟩ | ⟨x, y, hxy, ex, ey, hlo, hhi⟩
         · -- exactly one child: recurse into it
           obtain ⟨cg, cst, csz, chit, clo, chi⟩ := hchild x (by rw [hx]; simp)
@@ -709,8 +788,17 @@ theorem tao_go (n : Nat) : ∀ (r : Red) (p : Path) (t : Green) (s off : Nat), R
             rw [hfilter, hx]
             simp
           rw [hres]
-          obtain ⟨i1, i2, i3, i4, i5, i6⟩ := ih (r.childrenWithTokens p).2 (p ++ [x.1]) x.2.2 x.2.1 off hr1 cg cst csz chit.2.1 chit.2.2
-          refine ⟨i1, i2.trans hroot1, fun q o h => i3 q o (hmono1 q o h), by simp [hnode], fun _ h => absurd h hlen, ?_⟩
+          obtain ⟨i1, i2, i3, i4, i5, i6, i7⟩ := ih (r.childrenWithTokens p).2 (p ++ [x.1]) x.2.2 x.2.1 off hr1 cg cst csz chit.2.1 chit.2.2
+          refine ⟨i1, i2.trans hroot1, fun q o h => i3 q o (hmono1 q o h), by simp [hnode], fun _ h => absurd h hlen, ?_, ?_⟩
+          rotate_left
+          · -- completeness: the hit leaves of the node are those of its only hit child
+            intro _ _
+            rw [hleavesEq, hx]
+            simp only [List.flatMap_cons, List.flatMap_nil, List.append_nil]
+            by_cases hcn : x.2.2.isNode = true
+            · exact i7 hcn (Nat.pos_of_ne_zero chit.1)
+            · rw [i4 (by simpa using hcn)]
+              exact leaves_tok_hit off _ x.1 x.2.1 x.2.2 (by simpa using hcn) chit
           intro _ _
           by_cases hcn : x.2.2.isNode = true
           · have := i6 hcn (Nat.pos_of_ne_zero chit.1)
@@ -733,10 +821,10 @@ theorem tao_go (n : Nat) : ∀ (r : Red) (p : Path) (t : Green) (s off : Nat), R
         · -- two children meeting at the offset
           obtain ⟨xg, xst, xsz, xhit, xlo, xhi⟩ := hchild x (by rw [hxy]; simp)
           obtain ⟨yg, yst, ysz, yhit, ylo, yhi⟩ := hchild y (by rw [hxy]; simp)
-          obtain ⟨a1, a2, a3, a4, a5, a6⟩ := ih (r.childrenWithTokens p).2 (p ++ [x.1]) x.2.2 x.2.1 off hr1 xg xst xsz xhit.2.1 xhit.2.2
+          obtain ⟨a1, a2, a3, a4, a5, a6, a7⟩ := ih (r.childrenWithTokens p).2 (p ++ [x.1]) x.2.2 x.2.1 off hr1 xg xst xsz xhit.2.1 xhit.2.2
           have yg' : (tokenAtOffsetGo n (r.childrenWithTokens p).2 (p ++ [x.1]) off).2.green (p ++ [y.1]) = some y.2.2 := by
             unfold Red.green at yg ⊢; rw [a2]; exact yg
-          obtain ⟨b1, b2, b3, b4, b5, b6⟩ := ih (tokenAtOffsetGo n (r.childrenWithTokens p).2 (p ++ [x.1]) off).2
+          obtain ⟨b1, b2, b3, b4, b5, b6, b7⟩ := ih (tokenAtOffsetGo n (r.childrenWithTokens p).2 (p ++ [x.1]) off).2
             (p ++ [y.1]) y.2.2 y.2.1 off a1 yg' (a3 _ _ yst) ysz yhit.2.1 yhit.2.2
           -- the left answer is a single token ending at the offset
           have hleft : ∃ ql al, (tokenAtOffsetGo n (r.childrenWithTokens p).2 (p ++ [x.1]) off).1 = .single ql ∧
@@ -788,21 +876,45 @@ theorem tao_go (n : Nat) : ∀ (r : Red) (p : Path) (t : Green) (s off : Nat), R
             rw [hfilter, hxy]
             simp only [List.map_cons, List.map_nil]
             rw [hl1, hr1']
+          -- the hit leaves of the two children
+          have px : ((leaves (p ++ [x.1]) x.2.1 x.2.2).filter (hitLeaf off)).map (·.1) = [ql] := by
+            by_cases hcn : x.2.2.isNode = true
+            · have := a7 hcn (Nat.pos_of_ne_zero xhit.1)
+              rw [hl1] at this
+              exact this
+            · have h4 := a4 (by simpa using hcn)
+              rw [hl1] at h4
+              cases h4
+              exact leaves_tok_hit off _ x.1 x.2.1 x.2.2 (by simpa using hcn) xhit
+          have py : ((leaves (p ++ [y.1]) y.2.1 y.2.2).filter (hitLeaf off)).map (·.1) = [qr] := by
+            by_cases hcn : y.2.2.isNode = true
+            · have := b7 hcn (Nat.pos_of_ne_zero yhit.1)
+              rw [hr1'] at this
+              exact this
+            · have h4 := b4 (by simpa using hcn)
+              rw [hr1'] at h4
+              cases h4
+              exact leaves_tok_hit off _ y.1 y.2.1 y.2.2 (by simpa using hcn) yhit
           rw [hres]
           refine ⟨b1, (b2.trans a2).trans hroot1, fun q o h => b3 q o (a3 q o (hmono1 q o h)), by simp [hnode],
-            fun _ h => absurd h hlen, fun _ _ => ⟨al, br, hl2.mono b2 b3, hr2, hlo, by omega⟩⟩
+            fun _ h => absurd h hlen, fun _ _ => ⟨al, br, hl2.mono b2 b3, hr2, hlo, by omega⟩, ?_⟩
+          intro _ _
+          rw [hleavesEq, hxy]
+          simp only [List.flatMap_cons, List.flatMap_nil, List.append_nil, List.map_append]
+          rw [px, py]
+          rfl
     · -- a token answers itself
       have hres : tokenAtOffsetGo (n + 1) r p off = (.single p, r) := by
         simp [tokenAtOffsetGo, hrange, hin, htok, hnode]
       rw [hres]
-      exact ⟨hr, rfl, fun _ _ h => h, fun _ => rfl, fun h => absurd h hnode, fun h => absurd h hnode⟩
+      exact ⟨hr, rfl, fun _ _ h => h, fun _ => rfl, fun h => absurd h hnode, fun h => absurd h hnode, fun h => absurd h hnode⟩
 
 /-- **`token_at_offset` never panics inside its precondition** (any canonical red tree, any element, any
     offset within the element's range; the fuel the model uses is enough) -/
 theorem tao_total (r : Red) (hr : RInv r) (p : Path) (t : Green) (s off : Nat) (hg : r.green p = some t)
     (hs : r.start p = some s) (h1 : s ≤ off) (h2 : off ≤ s + t.len) : (r.tokenAtOffset p off).1 ≠ .panic := by
   have hfuel : gsize t ≤ walkFuel r p := by simp [walkFuel, hg]; omega
-  obtain ⟨_, _, _, a4, a5, a6⟩ := tao_go (walkFuel r p) r p t s off hr hg hs hfuel h1 h2
+  obtain ⟨_, _, _, a4, a5, a6, _⟩ := tao_go (walkFuel r p) r p t s off hr hg hs hfuel h1 h2
   unfold Red.tokenAtOffset
   by_cases hn : t.isNode = true
   · by_cases hl : t.len = 0
@@ -818,8 +930,18 @@ theorem tao_spec (r : Red) (hr : RInv r) (p : Path) (t : Green) (s off : Nat) (h
     (t.len = 0 → (r.tokenAtOffset p off).1 = .none) ∧
     (0 < t.len → TaoOk (r.tokenAtOffset p off).2 s (s + t.len) off (r.tokenAtOffset p off).1) := by
   have hfuel : gsize t ≤ walkFuel r p := by simp [walkFuel, hg]; omega
-  obtain ⟨_, _, _, _, a5, a6⟩ := tao_go (walkFuel r p) r p t s off hr hg hs hfuel h1 h2
+  obtain ⟨_, _, _, _, a5, a6, _⟩ := tao_go (walkFuel r p) r p t s off hr hg hs hfuel h1 h2
   exact ⟨a5 hn, a6 hn⟩
+
+/-- **`token_at_offset` returns all of them**: the tokens it answers with are *exactly* the non-empty tokens
+    of the sub-tree whose closed range contains the offset, in source order (`leaves` lists the tokens of
+    the sub-tree with their spans) — one token, or the two that meet at the offset -/
+theorem tao_complete (r : Red) (hr : RInv r) (p : Path) (t : Green) (s off : Nat) (hg : r.green p = some t)
+    (hs : r.start p = some s) (h1 : s ≤ off) (h2 : off ≤ s + t.len) (hn : t.isNode = true) (hl : 0 < t.len) :
+    ((leaves p s t).filter (hitLeaf off)).map (·.1) = resPaths (r.tokenAtOffset p off).1 := by
+  have hfuel : gsize t ≤ walkFuel r p := by simp [walkFuel, hg]; omega
+  obtain ⟨_, _, _, _, _, _, a7⟩ := tao_go (walkFuel r p) r p t s off hr hg hs hfuel h1 h2
+  exact a7 hn hl
 
 /-! ### non-vacuity: an empty node and a zero-length token at a boundary -/
 example :
